@@ -5,6 +5,7 @@ use serde_json::{json, Value};
 pub mod c01;
 pub mod c02;
 pub mod c03;
+pub mod c05;
 pub mod c06;
 pub mod c07;
 pub mod c08;
@@ -23,6 +24,7 @@ pub fn lanes_of(id: &str) -> Vec<(&'static str, LaneFn)> {
         "C01" => vec![("routing", c01::routing), ("hostile_ids", c01::hostile_ids), ("abandoned", c01::abandoned)],
         "C02" => vec![("requests", c02::requests), ("modifiers", c02::modifiers)],
         "C03" => vec![("responses", c03::responses), ("helpers", c03::helpers)],
+        "C05" => vec![("wrap", c05::wrap), ("threads", c05::threads)],
         "C06" => vec![("decoder_prefixes", c06::decoder_prefixes), ("partitions", c06::partitions), ("exhaustive_splits", c06::exhaustive_splits)],
         "C07" => vec![("trees", c07::trees), ("integers", c07::integers), ("nonminimal", c07::nonminimal)],
         "C08" => vec![("generated", c08::generated), ("exhaustive", c08::exhaustive), ("mutated", c08::mutated), ("rejection", c08::rejection_classes)],
@@ -59,6 +61,7 @@ pub fn replay(ctx: &Ctx, id: &str, v: &Value) -> Value {
         "C01" => c01::replay(ctx, v),
         "C02" => c02::replay(ctx, v),
         "C03" => c03::replay(ctx, v),
+        "C05" => c05::replay(ctx, v),
         "C06" => c06::replay(ctx, v),
         "C07" => c07::replay(ctx, v),
         "C08" => c08::replay(ctx, v),
